@@ -690,8 +690,10 @@ def alias(root, params):
                     ren[s["pat"]["id"]] = init
                     continue
                 if isinstance(init, dict) and immut(s["pat"].get("id")) and \
-                        ((init.get("k") == "lit" and s.get("norm") in ("unrolled", "specialised")) or
-                         (init.get("k") == "def" and init.get("dk") in ("Const", "AssocConst"))):
+                        ((init.get("k") == "lit" and (s.get("norm") in ("unrolled", "specialised") or s.get("inl"))) or
+                         (init.get("k") == "def" and init.get("dk") in ("Const", "AssocConst")) or
+                         (s.get("inl") and init.get("k") == "ref" and not init.get("mut") and hir.simp(init["e"]).get("k") == "def"
+                          and hir.simp(init["e"]).get("dk") in ("Const", "AssocConst", "Static"))):
                     ren[s["pat"]["id"]] = init          # an element of an unrolled const table: the constant itself
                     continue
             out.append(s)
@@ -1058,6 +1060,20 @@ def bool_tuple_match(root):
             branches[val] = br
         return {"k": "if", "c": sc["es"][0], "t": branches[True], "e": branches[False], "ln": n.get("ln"), "ty": n.get("ty"), "norm": "bool-tuple-match"}
     return map_tree(root, fn)
+
+
+def _index_through_ref(n):
+    """`(&a)[i]` is `a[i]` (indexing auto-dereferences); arises when a slice parameter of an inlined helper was given `&TABLE`."""
+    if n.get("k") == "index" and isinstance(n.get("e"), dict):
+        b_ = n["e"]
+        while isinstance(b_, dict) and b_.get("k") == "block" and not b_.get("stmts") and "expr" in b_ and "label" not in b_ and "unsafe" not in b_:
+            b_ = b_["expr"]
+        if isinstance(b_, dict) and b_.get("k") == "ref" and not b_.get("mut") and isinstance(b_.get("e"), dict):
+            out = dict(n, e=b_["e"])
+            if "base_ty" in out and str(out["base_ty"]).startswith("&"):
+                out["base_ty"] = str(out["base_ty"])[1:]
+            return out
+    return n
 
 
 def fold_constant_ifs(root):
@@ -1564,6 +1580,7 @@ def normalise_crate(name, crate):
         h = alias(h, b.get("params", []))
         h = subst_int_lets(h)
         h = map_tree(h, _assign_op)
+        h = map_tree(h, _index_through_ref)
         h = untag(h, b.get("params", []))
         b["hir"] = h
         if ref is not None and b["path"] in ref and ref[b["path"]] is not None:
